@@ -1667,7 +1667,9 @@ func (x *Decimal) BitsExp() ([]Word, int32) {
 // positive number with mantissa mant (interpreted as a little-endian Word
 // slice) and exponent exp, returning z rounded to z.Prec(). The result and mant
 // share the same underlying array. If mant is not normalized, SetBitsExp will
-// normalize it and adjust the exponent accordingly.
+// normalize it and adjust the exponent accordingly. If z's precision is 0 and
+// mant is not zero, it is changed to the larger of len(mant)*DigitsPerWord
+// (after removal of leading zero Words) or DefaultDecimalPrec.
 //
 // A mantissa is normalized when its most significant Word has a non-zero most
 // significant digit:
@@ -1683,6 +1685,14 @@ func (z *Decimal) SetBitsExp(mant []Word, exp int64) *Decimal {
 	z.mant = dec(mant).norm()
 	z.neg = false
 	if len(z.mant) > 0 {
+		if z.prec == 0 {
+			// like SetInt: enough precision to hold mant exactly
+			digits := int64(len(z.mant)) * _DW
+			if digits > MaxPrec {
+				digits = MaxPrec
+			}
+			z.prec = umax32(uint32(digits), DefaultDecimalPrec)
+		}
 		z.setExpAndRound(exp-dnorm(z.mant)-int64(len(mant)-len(z.mant))*_DW, 0)
 	} else {
 		z.acc = Exact
